@@ -32,7 +32,7 @@ def c15(run):
             extra.append(c2)
         if c["in"]["failAt"] != 0 and rnd.random() < (0.5 if quick else 1.0):
             c2 = copy.deepcopy(c)
-            c2["in"]["fk"] = "notfound"
+            c2["in"]["fk"] = rnd.choice(["notfound", "deadline"])
             c2["in"]["failAll"] = rnd.random() < 0.5
             c2["in"]["via"] = rnd.choice(["", "head"])
             extra.append(c2)
